@@ -59,7 +59,7 @@ func genSendFaultsPlan(seed uint64, tier string) *Plan {
 		for _, ds := range sfBackendDst {
 			n++
 			p.Ops = append(p.Ops, Op{Kind: "tcpbackend", ID: fmt.Sprintf("tb%d", n), S: map[string]string{"conn": st, "dst": ds},
-				I: map[string]int{"msgs": 1 + g.intn(3), "size": g.pick2(0, 10, 300, 3000, 20000), "offset": g.intn(100000), "cell": n}})
+				I: map[string]int{"msgs": 1 + g.intn(3), "size": g.pick2(0, 10, 300, 3000, 20000), "offset": g.intn(100000), "cell": n, "viaGroup": g.intn(2)}})
 		}
 	}
 	// datagram client transports: a write fails (message too long for a datagram; the socket's buffer is full) - the
@@ -429,8 +429,16 @@ func execSendFaults(t *testing.T, p *Plan) *Result {
 					}
 					phase = 1
 					gate.Wait()
+					// the proxy reaches its backends through the rotation they are members of: half of the cells send the
+					// way it does (what the group does around a member's failed send is part of the send)
+					send := be.Send
+					if op.I["viaGroup"] == 1 {
+						group := NewRoundRobinBackend()
+						group.AddBackend(be)
+						send = group.Send
+					}
 					for k := range msgs {
-						err := be.Send(msgs[k])
+						err := send(msgs[k])
 						res.errs = append(res.errs, err != nil)
 					}
 					res.done = true
